@@ -162,6 +162,12 @@ func (cm *clientMedia) initialize() {
 	cm.formats = make(map[uint8]*clientFormat)
 
 	for _, forma := range cm.media.Formats {
+		// a payload type identifies a single format;
+		// a second format with the same payload type would never be closed.
+		if _, ok := cm.formats[forma.PayloadType()]; ok {
+			continue
+		}
+
 		f := &clientFormat{
 			cm:          cm,
 			format:      forma,
